@@ -185,10 +185,11 @@ def client_decode(data, method):
 
 
 def rle(w):
-    """long writes in run-length form (same encoding as Model/HttpResponseObs.v Tw)"""
-    if len(w) <= 1000:
-        return w
-    return [-2, [[k, len(list(g))] for k, g in itertools.groupby(w)]]
+    """a write event as (length, checksum): same function as Model/HttpResponseObs.v Tw"""
+    a = 7
+    for x in w:
+        a = (a * 257 + x + 1) % 4294967291
+    return [len(w), a]
 
 
 def strip_date(b):
@@ -203,9 +204,9 @@ class C15(Prop):
     id = 'C15'
     props_file = 'Props/C15.v'
     imports = ['Model.HttpResponse', 'Model.HttpResponseObs']
-    quick_n = 260
+    quick_n = 200
     thorough_n = 4000
-    rule = ('every run: the full product {str,bytes,list,yield,iterator(stream on/off),file,404,403,redirect} x 12 statuses x '
+    rule = ('every run: the full product {str,bytes,list,yield,iterator(stream on/off),file,404,403,redirect} x 7 (thorough: 12) statuses x '
             'HTTP/1.0|1.1 x Connection close|keep-alive|absent x GET|HEAD as single requests with small bodies, plus random '
             'sequences of 1-4 such requests on one connection with bodies up to 3 x BUFSIZE, empty pieces, non-ASCII text; '
             'real HTTP component over a fake socket; output decoded by http.client. non-trivial = a body-bearing response, or a '
@@ -251,14 +252,15 @@ class C15(Prop):
         return {'m': rng.choice(['GET', 'GET', 'HEAD']), 'v': rng.choice(['1.1', '1.1', '1.0']),
                 'conn': rng.choice([None, None, 'close', 'keep-alive', 'keep-alive']), 'h': h}
 
-    def product(self):
+    def product(self, tier='thorough'):
         cases = []
+        statuses = STATUSES if tier == 'thorough' else [None, 204, 205, 304, 101, 413, 299]
         kinds = [('str', False), ('bytes', False), ('list', False), ('yield', False), ('iter', False), ('iter', True),
                  ('file', False), ('none', False), ('forbidden', False), ('redirect', False)]
         bodies = {'str': [['s', 'h\xe9llo', 1]], 'bytes': [['b', 'ab\xff', 1]], 'list': [['s', 'a', 1], ['b', '', 0], ['b', 'bc', 1]],
                   'yield': [['s', 'a', 1], ['s', 'b', 1]], 'iter': [['s', '', 0], ['s', 'abc', 1], ['b', '', 0], ['b', 'de', 1]],
                   'file': [['b', 'xyz', 1]]}
-        for (kind, st), status, v, conn, m in itertools.product(kinds, STATUSES, ['1.1', '1.0'], [None, 'close', 'keep-alive'],
+        for (kind, st), status, v, conn, m in itertools.product(kinds, statuses, ['1.1', '1.0'], [None, 'close', 'keep-alive'],
                                                                ['GET', 'HEAD']):
             if kind in ERRORS and status is not None:
                 continue
@@ -267,7 +269,7 @@ class C15(Prop):
         return cases
 
     def generate(self, rng, n, tier):
-        cases = self.product()
+        cases = self.product(tier)
         # empty bodies of every shape
         for kind in CONTENT:
             if kind == 'yield':
@@ -391,8 +393,9 @@ class C15(Prop):
             status = {'none': 404, 'forbidden': 403, 'redirect': 303 if r['v'] == '1.1' else 302}[k]
             if k == 'redirect':
                 pre += [('Content-Type', 'text/html'), ('Location', 'http://x/t')]
-            body = ''.join(ob['w'][1:])
-            chunks = [nlist(body)] if body else []
+            # the error page is written by errors.py, not by the application: only its length is modelled
+            n = sum(len(w) for w in ob['w'][1:])
+            chunks = ['(repN %d%%N [120]%%N)' % n] if n else []
         reason = HTTP_STATUS_CODES.get(status, '')
         return ('{| v11 := %s; head := %s; status := %d%%N; reason := %s; close0 := %s; pre := [%s]; sized := %s; '
                 'stream := %s; chunks := [%s] |}') % (
@@ -418,7 +421,18 @@ class C15(Prop):
         terms = self._modelled(c, obs)
         if terms is None:
             return None
-        return 'obs_seq [%s]' % '; '.join(terms)
+        ps = []
+        if self._parse_sampled(c, obs):
+            for r, ob in zip(c['reqs'], obs):
+                ps.append('(%s, %s)' % ('true' if r['m'] == 'HEAD' else 'false', nlist(''.join(ob['w']).encode('latin1'))))
+        return 'obs_case [%s] [%s]' % ('; '.join(terms), '; '.join(ps))
+
+    def _parse_sampled(self, c, obs):
+        """cases on which the Coq client is also run on the real bytes (small outputs, every eighth case)"""
+        if isinstance(obs, dict) or any(sum(len(w) for w in ob['w']) > 700 for ob in obs):
+            return False
+        import zlib
+        return zlib.crc32(common.canon(c).encode()) % 8 == 0
 
     def safe_impl(self, c):
         obs = Prop.safe_impl(self, c)
@@ -431,12 +445,23 @@ class C15(Prop):
         if isinstance(obs, dict):
             return [-999]
         out = []
-        for ob in obs:
+        for r, ob in zip(c['reqs'], obs):
             ws = [w.encode('latin1') for w in ob['w']]
             if ws:
                 ws[0] = strip_date(ws[0])
+            if r['h']['kind'] in ERRORS:
+                ws[1:] = [b'x' * len(w) for w in ws[1:]]
             out.append([[rle(w) for w in ws], bool(ob['closed'])])
-        return out
+        ps = []
+        if self._parse_sampled(c, obs):
+            for r, ob in zip(c['reqs'], obs):
+                data = ''.join(ob['w']).encode('latin1')
+                try:
+                    status, _h, body, will_close, consumed = client_decode(data, r['m'])
+                    ps.append([status, body, will_close, len(data) - consumed])
+                except Exception:
+                    ps.append([])
+        return [out, ps]
 
     # ------------------------------------------------------------------ oracle
     def oracle(self, c, obs):
@@ -485,6 +510,8 @@ class C15(Prop):
                 return 'status %d, expected %r' % (status, exp_status)
             if r['m'] == 'HEAD' and (body != b'' or consumed != len(data)):
                 return 'HEAD response carries body bytes'
+        if r['v'] == '1.0' and any(a.lower() == 'transfer-encoding' for a, b in headers):
+            return 'chunked transfer encoding sent to an HTTP/1.0 client'
         if ('X-Tag', h['tag']) not in [(a.title(), b) for a, b in headers]:
             return 'application header X-Tag: %s not recovered' % h['tag']
         if consumed != len(data):
